@@ -19,10 +19,15 @@ class Hang(Exception):
     pass
 
 
-def default_env(fill_byte=None):
+def default_env(fill_byte=None, reuse=False):
     env = dict(os.environ)
     asan = ("abort_on_error=0:exitcode=97:detect_leaks=1:detect_stack_use_after_return=1:"
             "allocator_may_return_null=1:handle_abort=1:print_summary=1:symbolize=1")
+    if reuse:
+        # no quarantine: released memory is handed out again at once, as a production allocator does. What is lost is the
+        # detection of late accesses to released memory; what is gained is that behaviour which depends on an address (or a
+        # descriptor-like handle derived from one) coming back shows as wrong behaviour
+        asan += ":quarantine_size_mb=0:thread_local_quarantine_size_kb=0"
     if fill_byte is not None:
         asan += ":max_malloc_fill_size=1048576:malloc_fill_byte=%d" % fill_byte
     env["ASAN_OPTIONS"] = asan
@@ -33,10 +38,10 @@ def default_env(fill_byte=None):
 
 
 class Sim:
-    def __init__(self, binary, args=("-f",), fill_byte=None, timeout=60, startup_inject=None):
+    def __init__(self, binary, args=("-f",), fill_byte=None, timeout=60, startup_inject=None, reuse=False):
         self.binary = binary
         self.errfile = tempfile.TemporaryFile()
-        env = default_env(fill_byte)
+        env = default_env(fill_byte, reuse)
         if startup_inject:
             env["SIMK_STARTUP_INJECT"] = startup_inject
         self.p = subprocess.Popen([binary] + list(args), stdin=subprocess.PIPE, stdout=subprocess.PIPE,
